@@ -250,10 +250,17 @@ def _make_scenario(sc, exact_time=False):
             detsched.emit('Pop', r=r, hit=True, backlog=len(self))
             return v
 
+    gates = sc.get('_gates')
+
     class W(Worker):
         def call(self, x):
             q = reqs[x]
             detsched.emit('WCall', r=x)
+            if gates is not None:
+                spins = 0
+                while not (gates.get(x) or gates.get('*')) and spins < 4000:
+                    detsched.checkpoint('gate')
+                    spins += 1
             if q['dur']:
                 time.sleep(q['dur'] * U)
             else:
@@ -432,6 +439,58 @@ def _make_scenario(sc, exact_time=False):
     return root
 
 
+L2_MAP = {
+    'CallerCheck': ('c', 'Wait'), 'CallerFirst': ('c', 'Record'), 'CallerSecond': ('c', 'InPut'),
+    'CallerCancel': ('c', 'Cancel'), 'CallerWaitLeave': ('c', None), 'CallerWaitReject': ('c', None),
+    'CallerGotResult': ('c', None), 'PipeFinish': ('w', 'OutPut'),
+    'GatherGet': ('g', 'OutGet'), 'GatherPop': ('g', 'Pop'), 'GatherMiss': ('g', 'Pop'), 'GatherCheck': ('g', 'IsCancelled'),
+    'GatherSet': ('g', 'Set'), 'GatherNotify': ('g', None), 'Notify': ('n', 'Notify'),
+}
+
+
+def behaviour_to_item(beh, R, cap):
+    """A TLC behaviour of ServerCore (sync flavour, no stream requests) -> scenario + steering script."""
+    from mbt.tlc import split_action
+    kinds = beh[0][1]['kind']
+    if any(k == 'stream' for k in kinds):
+        return None
+    script, prev = [], beh[0][1]
+    for act, st in beh[1:]:
+        name, args = split_action(act)
+        r = args[0] if args else 0
+        if name == 'CallerLock':
+            script.append({'role': f'c{r}', 'ev': 'Lock' if prev['pc'][r - 1] == 'start' else 'Woke', 'act': act})
+        elif name == 'CallerWaitTimeout':       # the wait for a free slot times out
+            script.append({'role': f'c{r}', 'ev': None, 'fire': True, 'after': ['Wait'], 'act': act})
+        elif name == 'CallerDeadline':          # the wait for the result times out
+            script.append({'role': f'c{r}', 'ev': None, 'fire': True, 'after': ['InPut'], 'act': act})
+        elif name == 'CallerCheck':
+            script.append({'role': f'c{r}', 'ev': 'Wait' if st['pc'][r - 1] == 'waiting' else None, 'act': act})
+        elif name == 'PipeFinish':
+            script.append({'role': 'w', 'ev': 'OutPut', 'open': r, 'act': act})
+        elif name in L2_MAP:
+            kind, ev = L2_MAP[name]
+            script.append({'role': f'c{r}' if kind == 'c' else kind, 'ev': ev, 'act': act})
+        prev = st
+    reqs = [{'r': r, 'kind': kinds[r - 1], 'dur': 0, 'fail': False,
+             'timeout': 5000 if kinds[r - 1] == 'short' else 100000, 'delay': 0} for r in range(1, R + 1)]
+    sc = {'cap': cap, 'workers': R, 'flavour': 'sync', 'reqs': reqs, 'stream': None}
+    return {'sc': sc, 'script': script}
+
+
+def _role_of(t):
+    n = t.name
+    if n.startswith('caller-'):
+        return 'c' + n[7:]
+    if '_gather_output' in n:
+        return 'g'
+    if 'notify' in n:
+        return 'n'
+    if '-thread-' in n:
+        return 'w'
+    return 'x'
+
+
 def run_job(job):
     from mbt import detsched
     _install()
@@ -445,11 +504,23 @@ def run_job(job):
         # every third execution runs with exact virtual time (timers fire only when nothing is runnable): there a
         # rejected / timed-out caller must be back by its deadline EXACTLY; the others use bounded-lag adversarial time
         exact = (item['id'] % 3 == 0)
-        res = detsched.run(_make_scenario(sc, exact), st, max_steps=400000, stall_timeout=120, lag=0.0 if exact else LAG,
-                           max_idle_vtime=3000.0)
+        guided = None
+        if item.get('script') is not None:
+            gates = {}
+            sc = dict(sc, _gates=gates)
+            guided = detsched.GuidedStrategy(item['script'], _role_of, gates, seed=seed, patience=60)
+            res = detsched.run(_make_scenario(sc, False), guided, max_steps=400000, stall_timeout=120, lag=1.0e6,
+                               max_idle_vtime=1.0e7)
+            sc = {k: v for k, v in sc.items() if k != '_gates'}
+        else:
+            res = detsched.run(_make_scenario(sc, exact), st, max_steps=400000, stall_timeout=120,
+                               lag=0.0 if exact else LAG, max_idle_vtime=3000.0)
         n_exec += 1
         rec = {'id': item['id'], 'p': header(sc), 'ev': strip(res.trace), 'sc': sc, 'seed': seed, 'strategy': strat,
                'status': res.status}
+        if guided is not None:
+            rec['l2'] = {'steps': sum(1 for x in item['script'] if x.get('ev') or x.get('fire')),
+                         'followed': guided.followed, 'skipped': guided.skipped}
         if res.status != 'ok' or res.exc is not None:
             rec.update(detail=res.detail, waitmap=res.waitmap, exc=repr(res.exc) if res.exc is not None else None,
                        leftover=res.leftover, thread_errors=res.thread_errors)
